@@ -297,3 +297,14 @@ Theorem C16_f64_lpf_run_hull : forall (alpha : Floats.PrimFloat.float) (M : R),
   List.Forall (fun y => ffinite y = true /\ - M <= f2r y <= M) (lpf_run F64_ops alpha o xs).
 Proof. exact f64_lpf_run_hull. Qed.
 Print Assumptions C16_f64_lpf_run_hull.
+
+(* the high pass, one step: finite alpha in [0,1], state and sample of magnitude at most 2^1021 - the float step is finite,
+   its real value is the rounded-real step, and the stored input is the sample *)
+Theorem C16_f64_hpf_step_is_rounded_step : forall alpha o xi x : Floats.PrimFloat.float,
+  ffinite alpha = true -> ffinite o = true -> ffinite xi = true -> ffinite x = true ->
+  0 <= f2r alpha <= 1 -> Rabs (f2r o) <= bpow radix2 1021 -> Rabs (f2r xi) <= bpow radix2 1021 -> Rabs (f2r x) <= bpow radix2 1021 ->
+  (ffinite (fst (hpf_iter F64_ops alpha (o, xi) x)) = true /\
+   f2r (fst (hpf_iter F64_ops alpha (o, xi) x)) = fst (hpf_iter (Rnd_ops rnd64) (f2r alpha) (f2r o, f2r xi) (f2r x))) /\
+  snd (hpf_iter F64_ops alpha (o, xi) x) = x.
+Proof. exact f64_hpf_iter_refines. Qed.
+Print Assumptions C16_f64_hpf_step_is_rounded_step.
